@@ -20,21 +20,73 @@ SCHEDULES = ["synchronous", "threads-2", "threads-4", "threads-16", "threads-4-r
 # --------------------------------------------------------------------------
 # generators
 # --------------------------------------------------------------------------
+ARRAY_LAYOUTS = ("C", "fortran", "transposed_view", "strided", "negative_stride", "readonly_C", "readonly_fortran")
+
+
+def lay_out(logical, kind):
+    """
+    The logical 2-D array (row identity = its C / row-major ravel) in another memory layout.
+    np.ravel(result) (C order) is always np.ravel(logical); only the strides / flags differ.
+    """
+    if kind == "C":
+        out = np.ascontiguousarray(logical).copy()
+    elif kind == "fortran":
+        out = np.asfortranarray(logical).copy(order="F")
+    elif kind == "transposed_view":  # F-contiguous *view* of a C-contiguous buffer holding the transpose
+        out = np.ascontiguousarray(logical.T).T
+    elif kind == "strided":
+        big = np.full((logical.shape[0] * 2, logical.shape[1] * 3), -777.0)
+        big[1::2, 2::3] = logical
+        out = big[1::2, 2::3]
+    elif kind == "negative_stride":
+        out = np.ascontiguousarray(logical[::-1, ::-1])[::-1, ::-1]
+    elif kind == "readonly_C":
+        out = np.ascontiguousarray(logical).copy()
+        out.setflags(write=False)
+    elif kind == "readonly_fortran":
+        out = np.asfortranarray(logical).copy(order="F")
+        out.setflags(write=False)
+    else:
+        raise ValueError(kind)
+    assert out.shape == logical.shape and np.array_equal(np.ravel(out), np.ravel(logical))
+    return out
+
+
 def make_dataset(rng, run, ncomp=None, weighted=None, single=False, nmax=None, away_from_blocks=None):
-    """Unique coordinates, noisy multi-component data, per-component distinct weights, hostile layouts."""
+    """
+    Unique coordinates, noisy multi-component data, per-component distinct weights, hostile layouts.
+
+    Half of the datasets are 1-D (contiguous / strided / read-only); the other half are gridded 2-D
+    (both dimensions > 1, non-square) and every coordinate, data-component and weight-component array
+    draws its memory layout independently (C, Fortran, transposed view, strided, negative strides,
+    read-only). Row identity on the reference side is the C ravel of the logical arrays.
+    """
     nmax = nmax or (80 if run.tier == "quick" else 100)
     shape2d = None
-    layout = str(rng.choice(["1d", "1d", "2d", "strided", "readonly"]))
+    layout = str(rng.choice(["1d", "1d", "strided", "readonly", "2d", "2d", "2d", "2d"]))
     if layout == "2d":
-        shape2d = (int(rng.integers(4, 9)), int(rng.integers(6, 12)))
+        while True:
+            shape2d = (int(rng.integers(4, 11)), int(rng.integers(4, 13)))
+            if shape2d[0] != shape2d[1] and 36 <= shape2d[0] * shape2d[1] <= nmax:
+                break
         n = shape2d[0] * shape2d[1]
-        if n > nmax:
-            shape2d = (5, nmax // 5)
-            n = shape2d[0] * shape2d[1]
     else:
         n = int(rng.integers(36, nmax + 1))
     scale = gen.log_uniform(rng, 1e-2, 1e5)
-    east, north = gen.cloud(rng, n, scale=scale, offset_factor=float(rng.choice([0.0, 1.0, 30.0])))
+    offset = float(rng.choice([0.0, 1.0, 30.0]))
+    if layout == "2d" and rng.random() < 0.4:
+        # a real (slightly irregular) mesh: easting varies along axis 1, northing along axis 0
+        layout_points = "mesh"
+        ge = np.sort(rng.uniform(0, 1, shape2d[1])) + np.arange(shape2d[1]) * 0.2
+        gn = np.sort(rng.uniform(0, 1, shape2d[0])) + np.arange(shape2d[0]) * 0.2
+        ee, nn_ = np.meshgrid(ge, gn)
+        jit = 0.02 * rng.uniform(-1, 1, (2,) + shape2d)
+        sign = rng.choice([-1.0, 1.0], 2)
+        east = ((ee + jit[0]) / ge.max() + offset * sign[0]).ravel() * scale
+        north = ((nn_ + jit[1]) / gn.max() + offset * sign[1]).ravel() * scale
+    else:
+        layout_points = "cloud"
+        east, north = gen.cloud(rng, n, scale=scale, offset_factor=offset)
     if ncomp is None:
         ncomp = 1 if single else int(rng.choice([1, 1, 1, 2, 3]))
     if weighted is None:
@@ -51,10 +103,15 @@ def make_dataset(rng, run, ncomp=None, weighted=None, single=False, nmax=None, a
     if weighted:
         weights = [10 ** rng.uniform(-1.5, 1.0, n) for _ in range(ncomp)]
     ds = R.Dataset(coords, data, weights)
+    used = []
 
-    def present(a):
+    def present(a, role):
         if layout == "2d":
-            return a.reshape(shape2d).copy()
+            kind = str(rng.choice(ARRAY_LAYOUTS))
+            used.append(kind)
+            run.count("class:array_layout:" + kind)
+            run.count("class:array_layout:%s:%s" % (role, "C-ravel-is-memory-order" if kind in ("C", "readonly_C") else "other-memory-order"))
+            return lay_out(a.reshape(shape2d), kind)
         if layout == "strided":
             big = np.full(a.size * 2, -777.0)
             big[::2] = a
@@ -65,18 +122,24 @@ def make_dataset(rng, run, ncomp=None, weighted=None, single=False, nmax=None, a
             return b
         return a.copy()
 
-    p_coords = tuple(present(c) for c in ds.coordinates)
-    p_data = tuple(present(d) for d in ds.data)
-    p_weights = None if weights is None else tuple(present(w) for w in ds.weights)
+    p_coords = tuple(present(c, "coordinate") for c in ds.coordinates)
+    p_data = tuple(present(d, "data") for d in ds.data)
+    p_weights = None if weights is None else tuple(present(w, "weights") for w in ds.weights)
     if ncomp == 1:
         p_data = p_data[0]
         p_weights = None if p_weights is None else p_weights[0]
     run.count("class:layout:" + layout)
+    if layout == "2d":
+        run.count("class:layout:2d:" + layout_points)
+        memory_orders = {"C" if k in ("C", "readonly_C") else ("F" if k in ("fortran", "transposed_view", "readonly_fortran") else "S") for k in used}
+        if len(memory_orders) > 1:
+            run.count("class:layout:2d:arrays_in_different_memory_orders")
     run.count("class:components:%d" % ncomp)
     run.count("class:weights:" + ("per_component" if weighted else "none"))
     if extra:
         run.count("class:extra_coordinate")
-    info = {"n": n, "layout": layout, "components": ncomp, "weighted": weighted, "extra_coordinate": extra, "scale": scale}
+    info = {"n": n, "layout": layout, "shape": shape2d, "array_layouts": used, "components": ncomp, "weighted": weighted,
+            "extra_coordinate": extra, "scale": scale}
     return ds, p_coords, p_data, p_weights, info
 
 
@@ -316,35 +379,82 @@ def case_cv(run, rng, vd, schedules=None, client=None):
 
 
 def case_score(run, rng, vd):
-    """estimator.score on held-out rows: the weighted R2, mean over components, of the fitted model; the model is not changed."""
+    """
+    estimator.score on held-out rows: the weighted R2, mean over components, of the fitted model; the model is not changed.
+    The model is fitted either on a flat subset or on the whole dataset as presented (2-D arrays in independent memory layouts);
+    the test arrays are 1-D or 2-D in independent layouts; the reference is a clone fitted and evaluated on flat C-ravelled arrays.
+    """
+    from sklearn.base import clone as sk_clone
+
     ds, coords, data, weights, info = make_dataset(rng, run)
     S.register(ds)
     est, est_label = make_estimator(rng, run, vd, len(ds.data))
     rows = rng.permutation(ds.size)
-    cut = int(ds.size * rng.uniform(0.5, 0.8))
-    train = rows[:cut]
+    whole = bool(rng.random() < 0.5)
+    cut = 0 if whole else int(ds.size * rng.uniform(0.5, 0.8))
+    train = np.arange(ds.size) if whole else rows[:cut]
+    run.count("class:score:fitted_on_" + ("whole_dataset_as_presented" if whole else "flat_subset"))
     with warnings.catch_warnings():
         warnings.simplefilter("ignore")
         c, d, w = ds.take(train)
-        est.fit(c, d if len(d) > 1 else d[0], None if w is None else (w if len(w) > 1 else w[0]))
+        with S.mute():
+            ref_est = sk_clone(est)
+            ref_est.fit(c, d if len(d) > 1 else d[0], None if w is None else (w if len(w) > 1 else w[0]))
+        if whole:
+            est.fit(coords, data, weights)
+        else:
+            est.fit(c, d if len(d) > 1 else d[0], None if w is None else (w if len(w) > 1 else w[0]))
         for _ in range(6):
-            test = rng.permutation(rows[cut:])[: int(rng.integers(4, ds.size - cut + 1))]
-            if rng.random() < 0.2:
-                test = rng.permutation(rows)[: int(rng.integers(4, ds.size))]  # any rows, training rows included
+            pool = rows[cut:]
+            test = rng.permutation(pool)[: int(rng.integers(6, min(pool.size, 40) + 1))]
             c, d, w = ds.take(test)
             mode = str(rng.choice(["dataset", "none", "other"]))
             if mode == "none" or (mode == "dataset" and w is None):
                 w = None
             elif mode == "other":
                 w = tuple(10 ** rng.uniform(-1, 1, test.size) for _ in d)
-            if rng.random() < 0.3 and test.size % 2 == 0:
-                shp = (2, test.size // 2)
-                c, d = tuple(x.reshape(shp) for x in c), tuple(x.reshape(shp) for x in d)
-                w = None if w is None else tuple(x.reshape(shp) for x in w)
+            flat = (c, d, w)
+            kinds = []
+            if rng.random() < 0.6:
+                r = int(rng.integers(2, 5))
+                cols = test.size // r
+                if cols > 1 and cols != r:
+                    m = r * cols
+                    test = test[:m]
+                    flat = (tuple(x[:m] for x in c), tuple(x[:m] for x in d), None if w is None else tuple(x[:m] for x in w))
+
+                    def lay(x):
+                        kinds.append(str(rng.choice(ARRAY_LAYOUTS)))
+                        run.count("class:score_array_layout:" + kinds[-1])
+                        return lay_out(x[:m].reshape(r, cols), kinds[-1])
+
+                    c, d = tuple(lay(x) for x in c), tuple(lay(x) for x in d)
+                    w = None if w is None else tuple(lay(x) for x in w)
             score = est.score(c, d if len(d) > 1 else d[0], None if w is None else (w if len(w) > 1 else w[0]))
+            fc, fd, fw = flat
+            with S.mute():
+                pred = ref_est.predict(fc)
+            expected, scale = R.mean_metric("r2", fd, pred if isinstance(pred, tuple) else (pred,), fw if fw is not None else (None,) * len(fd))
+            with M.GL:
+                if expected is None:
+                    run.count("skipped:score_vs_flat_reference")
+                else:
+                    run.evaluated("score_vs_flat_reference")
+                    tol = 1e-9 * scale
+                    err = abs(float(score) - expected)
+                    run.observe_max("score_vs_flat_reference_error_over_tolerance", err / tol)
+                    if not err <= tol:
+                        run.violation("score_vs_flat_reference",
+                                      "score() = %r, but the weighted R2 (mean over components) of the same model fitted and evaluated on the "
+                                      "C-ravelled arrays is %r" % (score, expected),
+                                      {"estimator": est_label, "fitted_on_whole_dataset_as_presented": whole, "dataset": info, "test_rows": test,
+                                       "test_array_layouts": kinds, "test_coordinates": list(c), "test_data": list(d),
+                                       "test_weights": None if w is None else list(w), "score": float(score), "expected": expected},
+                                      key="score-flat:" + ("fit" if whole and info["layout"] == "2d" else "test"))
             if score != 1.0:
                 run.mark_nontrivial("score", ds.coordinates[0], test, est_label, mode, float(score))
-    run.sample("score", {"dataset": info, "estimator": est_label, "test_rows": np.sort(test), "weights": mode, "score": float(score)})
+    run.sample("score", {"dataset": info, "estimator": est_label, "fitted_on_whole_dataset_as_presented": whole, "test_rows": np.sort(test),
+                         "test_array_layouts": kinds, "weights": mode, "score": float(score), "reference": expected})
     with M.GL:
         M.flush_local(run)
 
